@@ -214,6 +214,24 @@ func init() {
 					}
 				}
 			}
+			// the same with a root file system image at "/" (and at /usr): most of its directories belong to the filesystem
+			// package - implied rather than claimed; only an explicitly declared directory may take their place
+			for _, tr := range []model.Entry{{Src: "rootfs", Dst: "/", Type: "tree"}, {Src: "rootfs/usr", Dst: "/usr", Type: "tree"}, {Src: "rootfs/etc", Dst: "/etc/", Type: "tree", Owner: "app"}} {
+				for _, d := range []string{"/etc", "/usr", "/usr/share", "/usr/bin", "/etc/app", "/etc/logrotate.d", "/usr/share/licenses/logrotate", "/opt", "/opt/x", "/usr/bin/tool", "/etc/app/app.conf", "/var/lib/logrotate"} {
+					for _, t := range inT {
+						e := t
+						e.Dst = d
+						for _, p := range []string{"deb", "rpm"} {
+							if !yield(C05Case{Part: "tree-overlap", Packager: p, List: []model.Entry{tr, e}}) {
+								return
+							}
+							if !yield(C05Case{Part: "tree-overlap", Packager: p, List: []model.Entry{e, tr}}) {
+								return
+							}
+						}
+					}
+				}
+			}
 			// map-order seam (woven copy): every list of <=2 entries over the reduced universe under
 			// every order of every map iteration of the planner
 			ru := c05Universe(true)
@@ -415,6 +433,9 @@ func checkC05(env *engine.Env, ci any) engine.Outcome {
 			continue
 		}
 		delete(wantBy, g.Destination)
+		if w.SystemDir && w.Kind == "dir" {
+			w.Kind = "implicit dir" // in the plan a tree's system directory is an implied one, for every packager
+		}
 		if w.Kind != g.Type {
 			viol("plan:entries:kind:"+w.Kind+"->"+g.Type, "%q is planned as %s, the configuration denotes %s", g.Destination, g.Type, w.Kind)
 		}
